@@ -431,8 +431,8 @@ func (w statusWriter) Create(context.Context, client.Object, client.Object, ...c
 func (w statusWriter) Update(_ context.Context, obj client.Object, _ ...client.SubResourceUpdateOption) error {
 	return w.c.update(obj, true)
 }
-func (w statusWriter) Patch(context.Context, client.Object, client.Patch, ...client.SubResourcePatchOption) error {
-	return fmt.Errorf("simapi: status patch not supported")
+func (w statusWriter) Patch(_ context.Context, obj client.Object, patch client.Patch, _ ...client.SubResourcePatchOption) error {
+	return w.c.patch(obj, patch, true)
 }
 func (w statusWriter) Get(context.Context, client.Object, client.Object, ...client.SubResourceGetOption) error {
 	return fmt.Errorf("simapi: subresource get not supported")
